@@ -970,7 +970,8 @@ def _local_trace(frame, event, arg):
         t = s.by_ident.get(sk.REAL_GET_IDENT())
         if t is not None and not s.teardown:
             la = s.knobs.get("line_at")
-            if la and frame.f_code.co_name == la["func"] and t.state == sk.RUNNABLE and not t.killed:
+            if la and frame.f_code.co_name == la["func"] and t.state == sk.RUNNABLE and not t.killed and (
+                    not la.get("armed") or getattr(RT.run, "line_at_armed", None) == t.ident):
                 run = RT.run
                 run.line_at_count = getattr(run, "line_at_count", 0) + 1
                 if run.line_at_count == la["n"]:
